@@ -9,7 +9,7 @@ RECURSIVE Sub(_, _)
 Sub(S, n) == IF n = 0 THEN {{}} ELSE Sub(S, n - 1) \cup {T \cup {x} : T \in Sub(S, n - 1), x \in S}
 Sets == {T \in Sub(Choices, K) : Consistent(T) /\ \A ch \in T : \A r \in Requires(ch.flag) : \E x \in T : x.flag = r}
 \* "bias": a standard plot of a score whose perfect value lies outside the range of the plotted values (-sp must bring it into the picture)
-Plots == {"standard", "pithist", "reliability", "obsfcst", "map", "bias"}
+Plots == {"standard", "pithist", "reliability", "obsfcst", "map", "bias", "taylor"}
 Init == /\ s \in Sets /\ plot \in Plots /\ phase = "case" /\ (plot # "standard" => Cardinality(s) <= 1)
         /\ ((\E ch \in s : ch.flag = "-obsleg") => plot = "obsfcst") /\ (plot = "obsfcst" => \E ch \in s : ch.flag = "-obsleg")
         /\ (plot = "bias" => \E ch \in s : ch.flag = "-sp")
